@@ -134,9 +134,62 @@ def h_per_degree_targets(ctx, policy):
     ctx.prove(f'{policy}:transceiver_is_not_a_degree', not any('trx' in d for d in dicts.values()))
 
 
+def h_internal_paths(ctx):
+    """set_roadm_internal_paths (design) + get_impairment: a ROADM model with two profiles per path type (different max loss);
+    the operator selects, for one crossing (express, add or drop), the non-default profile through per_degree_impairments:
+    every crossing then uses the profile selected for it, else the first profile of its type - and the max loss seen by
+    propagation on that crossing is that profile's"""
+    import numpy as np
+    from copy import deepcopy
+    from gnpy.core.network import set_roadm_internal_paths
+    eqpt = deepcopy(equipment())
+    base = eqpt['Roadm']['roadm_type_1']
+
+    def prof(i, kind, maxloss):
+        return {'roadm-path-impairments-id': i, f'roadm-{kind}-path': [{'frequency-range': {'lower-frequency': 191.3e12,
+                'upper-frequency': 196.1e12}, 'roadm-pmd': 0, 'roadm-cd': 0, 'roadm-pdl': 0, 'roadm-inband-crosstalk': 0,
+                'roadm-maxloss': maxloss, **({'roadm-osnr': 41, 'roadm-pmax': 2.5, 'roadm-noise-figure': 23} if kind != 'express' else {})}]}
+    maxloss = {0: 16.5, 1: 11.5, 2: 11.0, 3: 6.0, 4: 4.0, 5: 9.0}
+    kinds = {0: 'express', 1: 'add', 2: 'drop', 3: 'drop', 4: 'add', 5: 'express'}
+    profiles = [prof(i, kinds[i], maxloss[i]) for i in range(6)]
+    crossing = ctx.choice('crossing with an operator-selected profile', ['none', 'express w_in->e_out', 'express e_in->w_out',
+                                                                           'add trx->e_out', 'add trx->w_out', 'drop w_in->trx', 'drop e_in->trx'])
+    sel = {'express': 5, 'add': 4, 'drop': 3}
+    per_degree = []
+    chosen = None
+    if crossing != 'none':
+        kind, ends = crossing.split(' ')
+        a, b = ends.split('->')
+        chosen = (a, b, sel[kind])
+        per_degree = [{'from_degree': a, 'to_degree': b, 'impairment_id': sel[kind]}]
+    fib = {'type': 'Fiber', 'type_variety': 'SSMF', 'params': {'length': 50, 'length_units': 'km', 'loss_coef': 0.2, 'con_in': 0,
+                                                               'con_out': 0, 'att_in': 0}}
+    params = {'target_pch_out_db': -20, 'add_drop_osnr': 38, 'pmd': 0, 'pdl': 0,
+              'restrictions': {'preamp_variety_list': [], 'booster_variety_list': []},
+              'roadm-path-impairments': profiles, 'per_degree_impairments': per_degree}
+    els = [{'uid': 'r', 'type': 'Roadm', 'params': params}, dict(fib, uid='w_in'), dict(fib, uid='e_in'), dict(fib, uid='w_out'),
+           dict(fib, uid='e_out'), {'uid': 'trx', 'type': 'Transceiver'}]
+    cx = [('w_in', 'r'), ('e_in', 'r'), ('r', 'w_out'), ('r', 'e_out'), ('trx', 'r'), ('r', 'trx')]
+    g, by = build_elements(els, eqpt, connections=[{'from_node': a, 'to_node': b} for a, b in cx])
+    roadm = by['r']
+    set_roadm_internal_paths(roadm, g)
+    f = np.array([193.0e12, 194.0e12])
+    for a, b, kind, default in (('w_in', 'e_out', 'express', 0), ('e_in', 'w_out', 'express', 0), ('w_in', 'w_out', 'express', 0),
+                                ('trx', 'e_out', 'add', 1), ('trx', 'w_out', 'add', 1), ('w_in', 'trx', 'drop', 2), ('e_in', 'trx', 'drop', 2)):
+        want = chosen[2] if chosen and (a, b) == chosen[:2] else default
+        pth = roadm.get_roadm_path(a, b)
+        info = dict(selected=crossing, crossing=f'{a}->{b}', got_id=pth.impairment_id, want_id=want)
+        ctx.prove(f'{kind} crossing {a}->{b}: path type and profile (operator-selected if any, else the first of its type)',
+                  pth.path_type == kind and pth.impairment_id == want, info=info)
+        got = roadm.get_impairment('roadm-maxloss', f, a, b)
+        ctx.prove(f'{kind} crossing {a}->{b}: max loss applied by propagation is that profile\'s',
+                  all(abs(float(x) - maxloss[want]) < 1e-9 for x in got), info=dict(info, maxloss=[float(x) for x in got]))
+
+
 def jobs(tier):
     js = [dict(name='H6b:single_policy', module='harness.c06b', fn='h_single_policy'),
-          dict(name='H6b:single_policy:element_constructor', module='harness.c06b', fn='h_element_single_policy')]
+          dict(name='H6b:single_policy:element_constructor', module='harness.c06b', fn='h_element_single_policy'),
+          dict(name='H6d:internal_paths_per_degree_profiles', module='harness.c06b', fn='h_internal_paths')]
     for pol in ('pch', 'psd', 'psw'):
         js.append(dict(name=f'H6c:per_degree_targets:{pol}', module='harness.c06b', fn='h_per_degree_targets',
                        params=dict(policy=pol)))
